@@ -432,8 +432,18 @@ func cmdCheck(args []string) int {
 		}
 		// engine concrete runs for the validation vectors
 		if nval > 0 && nerr == nil {
+			nativeOnly = nil
 			agree, disagree := validateConcrete(prog, job, valVecs, nres)
 			validated += agree
+			for i, nf := range nativeOnly {
+				if i >= 3 {
+					break
+				}
+				violations++
+				f := ssaexec.AssertFail{ID: nf.fails[0], Kind: "ASSERT", Vector: nf.vec, Msg: "native run of a validation vector"}
+				violationLines = append(violationLines, writeReplay(id, row, params, f,
+					fmt.Sprintf("the real code fails %v natively on a validation vector while the engine's run of it does not (environment modelled differently, see the TRANSLATOR-MISMATCH line): demonstrated natively, not decided by the solver", nf.fails)))
+			}
 			for _, d := range disagree {
 				inconclusive = append(inconclusive, fmt.Sprintf("TRANSLATOR-MISMATCH %s: %s", row.Func, d))
 			}
@@ -575,6 +585,16 @@ func doReplay(id, path string) int {
 
 // validateConcrete runs the harness in the engine's concrete mode on the given
 // vectors and compares status/observations with the native results.
+// nativeOnlyFail: a validation vector on which the REAL code fails a harness assertion natively
+// while the engine's run of the same vector does not (the engine's model of the environment differs:
+// e.g. all types on the slow cache path). The native failure is a demonstrated violation.
+type nativeOnlyFail struct {
+	vec   []uint64
+	fails []string
+}
+
+var nativeOnly []nativeOnlyFail
+
 func validateConcrete(prog *ssaexec.Program, job Job, vecs [][]uint64, nres map[string]nativeResult) (agree int, disagree []string) {
 	for i, v := range vecs {
 		nr, ok := nres[fmt.Sprintf("v%d", i)]
@@ -603,6 +623,16 @@ func validateConcrete(prog *ssaexec.Program, job Job, vecs [][]uint64, nres map[
 		sort.Strings(nf)
 		if !okStatus || (es != "PANIC?" && eobs != nobs) || (es != "PANIC?" && strings.Join(cr.Fails, ",") != strings.Join(nf, ",")) {
 			disagree = append(disagree, fmt.Sprintf("vec %d: engine status=%s obs=%s fails=%v msg=%s | native status=%s obs=%s fails=%v msg=%s", i, cr.Status, eobs, cr.Fails, cr.Msg, nr.Status, nobs, nf, nr.Msg))
+			var real []string
+			for _, f := range nf {
+				// assertions that only validate the harness's own reference are not about the code under test
+				if f != "reference-equals-encoding-json" && !contains(cr.Fails, f) {
+					real = append(real, f)
+				}
+			}
+			if (nr.Status == "ASSERTFAIL" || nr.Status == "CRASH") && len(real) > 0 && cr.Status == "OK" {
+				nativeOnly = append(nativeOnly, nativeOnlyFail{vec: v, fails: real})
+			}
 			continue
 		}
 		agree++
